@@ -501,4 +501,106 @@ theorem nextLoop_spec {rev : Bool} : ∀ (fuel : Nat) (it : MIter), MInv rev it 
           have h2' : dlt rev K' it.prevKey = false := hall1 _ hmem2 (K', v2) (by simp)
           exact hK (eq_of_not_dlt h2' h1)
 
+/-! ### the merged iterator is a cursor over the union -/
+
+theorem sumLen_le_size (it : MIter) : sumLen (subRests it) ≤ it.size := by
+  unfold sumLen subRests MIter.size
+  induction it.iters with
+  | nil => simp
+  | cons s ss ih =>
+    simp only [List.map_cons, List.sum_cons]
+    have := @Iter.rest_length_le s
+    omega
+
+theorem MInv.rest_valid {rev : Bool} {it : MIter} (h : MInv rev it) :
+    it.valid = true ↔ it.rest ≠ [] := by
+  unfold MIter.rest
+  rw [h.rev_eq]
+  constructor
+  · intro hv
+    obtain ⟨v, r, _, _, _, _, hm, _⟩ := h.vstate hv
+    rw [hm]; simp
+  · intro hne
+    rcases h.state with ⟨hv, _⟩ | ⟨_, hnil⟩
+    · exact hv
+    · exact absurd (munion_eq_nil hnil) hne
+
+theorem mergedCursor (rev : Bool) : Cursor mergedOps (MInv rev) MIter.rest where
+  valid_iff := fun _ h => h.rest_valid
+  head := by
+    intro it e r h hr
+    have hv : it.valid = true := h.rest_valid.mpr (by rw [hr]; simp)
+    obtain ⟨v, r', sub, hsub, hsr, hidx, hm, _⟩ := h.vstate hv
+    have he : e = (it.prevKey, v) := by
+      have : it.rest = (it.prevKey, v) :: munion rev ((subRests it).map (dropKey it.prevKey)) := by
+        unfold MIter.rest; rw [h.rev_eq]; exact hm
+      rw [hr] at this
+      exact (List.cons.inj this).1
+    subst he
+    constructor
+    · show it.key = it.prevKey
+      unfold MIter.key
+      rw [hv, if_pos rfl, h.keys_eq, List.getElem?_map, hidx]
+      simp [headKey]
+    · show it.value = v
+      unfold MIter.value
+      rw [hv, if_pos rfl, hsub]
+      have hw := h.subs sub (List.mem_of_getElem? hsub)
+      exact (Iter.head_of_rest hw.1 hsr).2.1
+  next := by
+    intro it e r h hr
+    have hv : it.valid = true := h.rest_valid.mpr (by rw [hr]; simp)
+    obtain ⟨v, r', _, _, _, _, hm, _⟩ := h.vstate hv
+    have hfuel : sumLen (subRests it) < it.size + 2 := by have := sumLen_le_size it; omega
+    obtain ⟨hi, hrs⟩ := nextLoop_spec (it.size + 2) it h hv hfuel
+    refine ⟨hi, ?_⟩
+    show MIter.rest (MIter.nextLoop (it.size + 2) it).1 = r
+    unfold MIter.rest
+    rw [hi.rev_eq, hrs]
+    have : it.rest = (it.prevKey, v) :: munion rev ((subRests it).map (dropKey it.prevKey)) := by
+      unfold MIter.rest; rw [h.rev_eq]; exact hm
+    rw [hr] at this
+    exact (List.cons.inj this).2.symm
+
+/-- the layers' in-range entries in iteration order, merged (the first layer has priority). -/
+def mergedAll (layers : List Map) (start : Bytes) (end_ : Option Bytes) (rev : Bool) : List Entry :=
+  munion rev (layers.map (fun m => ordered rev (range m start (effEnd start end_))))
+
+theorem mergedIter_reverse {layers : List Map} (h2 : 2 ≤ layers.length) (start : Bytes) (end_ : Option Bytes)
+    (rev : Bool) : (mergedIter layers start end_ rev).reverse = rev := by
+  unfold mergedIter MIter.mk'
+  match layers, h2 with
+  | a :: b :: rest, _ => rfl
+
+theorem mergedRangeCursor {layers : List Map} (hs : ∀ m ∈ layers, Sorted m) (h2 : 2 ≤ layers.length)
+    (start : Bytes) (end_ : Option Bytes) (rev : Bool) :
+    RangeCursor mergedOps (MInv rev) MIter.rest (mergedIter layers start end_ rev)
+      (mergedAll layers start end_ rev) rev := by
+  have hrev := mergedIter_reverse h2 start end_ rev
+  have hsubs : ∀ sub ∈ (mergedIter layers start end_ rev).iters, sub.WF ∧ sub.reverse = rev := by
+    intro sub hsub
+    simp only [mergedIter, MIter.mk', List.mem_map] at hsub
+    obtain ⟨m, hm, rfl⟩ := hsub
+    exact ⟨Iter.wf_mk' (hs m hm) start end_ rev, rfl⟩
+  have hdir : (mergedIter layers start end_ rev).dir ≠ .fault := by simp [mergedIter, MIter.mk']
+  have halls : (mergedIter layers start end_ rev).iters.map Iter.all
+      = layers.map (fun m => ordered rev (range m start (effEnd start end_))) := by
+    simp only [mergedIter, MIter.mk', List.map_map]
+    apply List.map_congr_left
+    intro m _
+    cases rev <;> simp [Iter.all, Iter.mk', ordered]
+  refine ⟨mergedCursor rev, ?_, ?_⟩
+  · obtain ⟨hi, hr⟩ := MIter.rewind_spec hrev hsubs hdir
+    refine ⟨hi, ?_⟩
+    show MIter.rest (MIter.rewind (mergedIter layers start end_ rev)).1 = _
+    unfold MIter.rest mergedAll
+    rw [hi.rev_eq, hr, halls]
+  · intro k
+    obtain ⟨hi, hr⟩ := MIter.seek_spec hrev hsubs hdir k
+    refine ⟨hi, ?_⟩
+    show MIter.rest (MIter.seek (mergedIter layers start end_ rev) k).1 = _
+    unfold MIter.rest mergedAll
+    rw [hi.rev_eq, hr, ← munion_dropWhile, ← halls, List.map_map]
+    rfl
+
 end C07
